@@ -105,6 +105,52 @@ theorem ns_reqRead (cms : Nat) (w : World c) (h : NoStale w) : NoStale (reqRead 
     | exact h
     | exact ns_setChunk _ w h
     | (apply ns_reqLoop; first | exact h | exact ns_setChunk _ w h)
+theorem ns_resumeGate (w : World c) (h : NoStale w) : ∀ r, resumeGate w = some r → NoStale r.1 := by
+  intro r hr
+  simp only [resumeGate] at hr
+  repeat' split at hr
+  all_goals first | (injection hr with hr; subst hr; exact h) | cases hr
+theorem ns_parkOrFail (w : World c) (h : NoStale w) : NoStale (parkOrFail w).1 := by
+  simp only [parkOrFail]; split <;> exact h
+theorem ns_parkedRead (n : Option Nat) (w : World c) (h : NoStale w) : NoStale (parkedRead w n).1 := by
+  simp only [parkedRead]
+  split
+  · rename_i r hr; exact ns_resumeGate w h r hr
+  · repeat' split
+    all_goals first
+      | exact h
+      | exact ns_setChunk _ w h
+      | (apply ns_parkOrFail; first | exact h | exact ns_setChunk _ w h)
+      | (apply ns_readUpTo; first | exact h | exact ns_setChunk _ w h)
+      | (apply ns_readAllChunks; first | exact h | exact ns_setChunk _ w h)
+theorem ns_lineTake (w : World c) (h : NoStale w) : NoStale (lineTake w) := by
+  simp only [lineTake]
+  exact ns_readChunk _ { w with outb := [] } h
+theorem ns_lineInner : ∀ fuel m (w : World c), NoStale w → NoStale (lineInner fuel m w).1 := by
+  intro fuel
+  induction fuel with
+  | zero => intro m w h; exact h
+  | succ f ih =>
+    intro m w h
+    simp only [lineInner]
+    have h1 := ns_lineTake w h
+    repeat' split
+    all_goals first | exact h | exact h1 | exact ih _ _ h1
+theorem ns_lineStart (w : World c) (h : NoStale w) : NoStale (lineStart w) := by
+  simp only [lineStart]; split <;> exact h
+theorem ns_lineFinish (r : World c × LineRes) (h : NoStale r.1) : NoStale (lineFinish r).1 := by
+  simp only [lineFinish]
+  repeat' split
+  all_goals first | exact h | exact ns_parkOrFail _ h
+theorem ns_parkedLine (w : World c) (h : NoStale w) : NoStale (parkedLine w).1 := by
+  simp only [parkedLine]
+  split
+  · rename_i r hr; exact ns_resumeGate w h r hr
+  · exact ns_lineFinish _ (ns_lineInner _ _ _ (ns_lineStart w h))
+/-- after the server's `connection_lost` the protocol has dropped its parser: nothing to say -/
+theorem ns_connectionLostServer (w : World c) : NoStale (connectionLostServer w) := by
+  intro _ _ hp _ _
+  simp [connectionLostServer] at hp
 theorem ns_step (w : World c) (op : Op) (h : NoStale w) : NoStale (step w op).1 := by
   cases op with
   | deliver seg =>
@@ -121,6 +167,12 @@ theorem ns_step (w : World c) (op : Op) (h : NoStale w) : NoStale (step w op).1 
   | readAny => exact ns_readOp none w h
   | setChunk n => exact ns_setChunk n w h
   | reqRead cms => exact ns_reqRead cms w h
+  | pread n => exact ns_parkedRead _ w h
+  | preadAny => exact ns_parkedRead _ w h
+  | preadLine => exact ns_parkedLine w h
+  | closeServer => simp only [step]; split
+                   · exact h
+                   · exact ns_connectionLostServer w
 theorem ns_run (ops : List Op) : ∀ (w : World c), NoStale w → NoStale (run w ops) := by
   induction ops with
   | nil => intro w h; exact h
